@@ -47,4 +47,19 @@ pub mod verif_hooks {
     pub fn take_mcf() -> Vec<String> {
         std::mem::take(&mut *MCF.lock().unwrap())
     }
+
+    /// transitions seen by the transition optimisation: the start transition of each type, every accepted step of
+    /// the transition local search, the transition handed back
+    pub static TRANSITIONS: Mutex<Vec<(String, solution::transition::Transition)>> = Mutex::new(Vec::new());
+
+    pub fn record_transition(label: &str, transition: &solution::transition::Transition) {
+        TRANSITIONS
+            .lock()
+            .unwrap()
+            .push((label.to_string(), transition.clone()));
+    }
+
+    pub fn take_transitions() -> Vec<(String, solution::transition::Transition)> {
+        std::mem::take(&mut *TRANSITIONS.lock().unwrap())
+    }
 }
